@@ -322,6 +322,12 @@ impl LocalNode {
     {
         let node = &self.node.get().expect("LocalNode::with ensures it is set");
         debug_assert_eq!(node.in_use.load(Relaxed), NODE_USED);
+        // The replacement is a full nested load on this thread. If it wraps the generation, it
+        // sends this very node into cooldown and attaches the thread to another one, while the
+        // helping below still works with the handover space of this one. Being counted as a
+        // writer on our own node keeps it in the cooldown (nobody else can claim it and use the
+        // same space) until we are done with it.
+        let _reservation = node.reserve_writer();
         node.helping.help(&who.helping, storage_addr, replacement)
     }
 }
